@@ -92,7 +92,7 @@ pub fn targeted(seed: u64, tier: &str) -> Vec<Doc> {
             5 => {
                 // generated ids must not collide with author ids of the same shape
                 format!(
-                    r##"{HDR}<defs><clipPath id="clipPath1" clipPathUnits="objectBoundingBox"><rect width="1" height="1"/></clipPath><mask id="mask1" maskContentUnits="objectBoundingBox"><rect width="1" height="1" fill="white"/></mask><linearGradient id="linearGradient1"><stop offset="0"/><stop offset="1" stop-color="red"/></linearGradient><filter id="filter1" primitiveUnits="objectBoundingBox"><feOffset dx="0.1"/></filter><pattern id="pattern1" width="0.3" height="0.3"><rect width="3" height="3"/></pattern><rect id="clipPath2" width="5" height="5"/><rect id="mask2" width="5" height="5"/></defs><rect id="x1" width="30" height="30" clip-path="url(#clipPath1)" mask="url(#mask1)" fill="url(#linearGradient1)" filter="url(#filter1)"/><rect id="x2" x="40" width="50" height="20" clip-path="url(#clipPath1)" mask="url(#mask1)" fill="url(#linearGradient1)" stroke="url(#pattern1)" filter="url(#filter1)"/><rect id="x3" y="50" width="20" height="50" clip-path="url(#clipPath1)" mask="url(#mask1)" fill="url(#pattern1)" filter="url(#filter1)"/><use xlink:href="#clipPath2"/><use xlink:href="#mask2" x="{}"/></svg>"##,
+                    r##"{HDR}<defs><clipPath id="clipPath1" clipPathUnits="objectBoundingBox"><rect width="1" height="1"/></clipPath><mask id="mask1" maskContentUnits="objectBoundingBox"><rect width="1" height="1" fill="white"/></mask><linearGradient id="linearGradient1"><stop offset="0"/><stop offset="1" stop-color="red"/></linearGradient><filter id="filter1" primitiveUnits="objectBoundingBox"><feOffset dx="0.1"/></filter><pattern id="pattern1" width="0.3" height="0.3"><rect width="3" height="3"/></pattern><rect id="clipPath2" width="5" height="5"/><rect id="mask2" width="5" height="5"/></defs><g id="clipPath3"/><g id="mask3"><rect id="filter2" width="3" height="3"/></g><text id="linearGradient2" x="1" y="100" font-size="5">a</text><circle id="pattern2" r="2"/><g id="radialGradient2" opacity="0.5"><rect id="linearGradient3" width="2" height="2"/></g><rect id="x1" width="30" height="30" clip-path="url(#clipPath1)" mask="url(#mask1)" fill="url(#linearGradient1)" filter="url(#filter1)"/><rect id="x2" x="40" width="50" height="20" clip-path="url(#clipPath1)" mask="url(#mask1)" fill="url(#linearGradient1)" stroke="url(#pattern1)" filter="url(#filter1)"/><rect id="x3" y="50" width="20" height="50" clip-path="url(#clipPath1)" mask="url(#mask1)" fill="url(#pattern1)" filter="url(#filter1)"/><use xlink:href="#clipPath2"/><use xlink:href="#mask2" x="{}"/></svg>"##,
                     rng.below(30)
                 )
             }
@@ -128,7 +128,8 @@ pub fn targeted(seed: u64, tier: &str) -> Vec<Doc> {
             }
             _ => {
                 // text with gradients/patterns (flattened clones) and nested SVG images
-                let inner = r##"<svg xmlns="http://www.w3.org/2000/svg" width="20" height="20"><defs><linearGradient id="lg"><stop offset="0" stop-color="red"/><stop offset="1"/></linearGradient><clipPath id="c"><rect width="10" height="10"/></clipPath></defs><rect id="r" width="20" height="20" fill="url(#lg)" clip-path="url(#c)"/></svg>"##;
+                // (the nested document has context paint of its own: it is a finished tree when the outer pass meets it)
+                let inner = r##"<svg xmlns="http://www.w3.org/2000/svg" xmlns:xlink="http://www.w3.org/1999/xlink" width="20" height="20"><defs><linearGradient id="lg"><stop offset="0" stop-color="red"/><stop offset="1"/></linearGradient><clipPath id="c"><rect width="10" height="10"/></clipPath><path id="pp" d="M 0 0 H 5 V 5 H 0 Z" fill="context-fill" stroke="context-stroke"/><pattern id="pt" width="0.5" height="0.5"><rect width="2" height="2" fill="url(#lg)"/></pattern></defs><rect id="r" width="20" height="20" fill="url(#lg)" clip-path="url(#c)"/><use id="u" xlink:href="#pp" x="10" y="10" fill="url(#lg)" stroke="url(#pt)"/></svg>"##;
                 let uri = format!("data:image/svg+xml;base64,{}", crate::c17::b64(inner.as_bytes()));
                 format!(
                     r##"{HDR}<defs><linearGradient id="lg"><stop offset="0" stop-color="red"/><stop offset="1"/></linearGradient><pattern id="pt" width="0.2" height="0.2"><rect width="3" height="3"/></pattern></defs><text id="t" x="5" y="30" font-size="{}" fill="url(#lg)" stroke="url(#pt)">ab<tspan id="ts" fill="url(#pt)">cd</tspan></text><text id="t2" x="5" y="70" font-size="20" fill="url(#lg)">xyz</text><image id="im" x="60" y="60" width="30" height="30" xlink:href="{uri}"/><image id="im2" x="10" y="80" width="30" height="30" xlink:href="{uri}"/></svg>"##,
